@@ -555,7 +555,7 @@ func main() {
 
 	// the table and uTestSamples / medianSamples
 	tab := benchmath.VerifUTestMinP()
-	hx.Printf("case %d kind=tab tag=table\n", id)
+	hx.Printf("case %d kind=tab itab=%s tag=table\n", id, list(tab[1:]))
 	hx.Printf("obs %d minp=%s\n", id, list(tab[1:]))
 	hx.Printf("sobs %d minp=ok\n", id)
 	id++
